@@ -9,7 +9,9 @@ BASE=/dev/shm; [ -d "$BASE" ] && [ -w "$BASE" ] || BASE="${TMPDIR:-/var/tmp}"
 SC="$(mktemp -d "$BASE/selftest.XXXXXX")"
 trap 'rm -rf "$SC"' EXIT
 rsync -a --exclude .git /repo/ "$SC/src"/ || exit 2
-(cd "$SC/src" && git apply "$PATCH") || { echo "selftest: patch does not apply" >&2; exit 2; }
+# a seeded change that no longer applies exactly (the repository has been repaired around it since) is applied with
+# fuzz; only if that fails too it counts as not applicable
+(cd "$SC/src" && { git apply "$PATCH" 2>/dev/null || patch -p1 -s -F3 --no-backup-if-mismatch < "$PATCH"; }) || { echo "selftest: patch does not apply" >&2; exit 2; }
 VERIF_REPO="$SC/src" VERIF_EVIDENCE_DIR="$SC/evidence" "$VERIF/run.sh" "$ID" "$TIER"; rc=$?
 echo "selftest: $ID on $(basename "$(dirname "$PATCH")")/$(basename "$PATCH") -> exit $rc"
 exit $rc
